@@ -35,6 +35,8 @@ SPEC['explanation'] += ' T9.front: the private operation that hands out the link
 SPEC['decided'] += ['hit moves the link to the front on every path']
 SPEC['explanation'] += " T7 is applied to every operation that can add a key (a bulk operation with its own 'there is room' shortcut is held to the same capacity test). T4.reflect: __eq__ never re-dispatches `other == self` for operands that may be dicts (unbounded recursion through the reflected method)."
 SPEC['decided'] += ['capacity test on every adding operation', 'no reflected re-dispatch in __eq__']
+SPEC['explanation'] += " T9.touch: every normal path of __setitem__ puts a link in front of the anchor (no 'same value' early exit). T9.kwsrc: update() feeds its keyword items on every path except update(self). T14.get: get/setdefault answer with the looked-up value or the caller's default."
+SPEC['decided'] += ['assignment always refreshes recency', 'keyword source fed on every path']
 MANIFEST = {
     'technique': 'paired-effect (lock-step) analysis over all CFG paths with inlined helpers; dominating-guard check with comparison canonicalisation; who-may-write counters; observer purity of copy()',
     'text': ('Decides necessary structural conditions of C02 for all paths of all methods: the three structures (dict, '
